@@ -228,7 +228,14 @@ func (c *Ctx) rangeBodyVerdict(pk *packages.Package, fd *ast.FuncDecl, rs *ast.R
 					if call, ok := es.X.(*ast.CallExpr); ok {
 						if cal := Callee(info, call); cal != nil && cal.Pkg() != nil &&
 							(cal.Pkg().Path() == "sort" || cal.Pkg().Path() == "slices") && strings.HasPrefix(cal.Name(), "S") {
-							sorted = true
+							// The order must be total on the collected (distinct) map keys:
+							// natural-order sorts are; a custom comparator is accepted only if it
+							// compares the elements themselves (ties would keep map order).
+							if totalOrderSort(info, call, cal, obj) {
+								sorted = true
+							} else {
+								usedUnsorted = "sorted with a comparator that is not the elements' own order: ties keep the map's iteration order"
+							}
 							return false
 						}
 					}
@@ -242,10 +249,79 @@ func (c *Ctx) rangeBodyVerdict(pk *packages.Package, fd *ast.FuncDecl, rs *ast.R
 			return true
 		})
 		if !sorted {
+			if strings.HasPrefix(usedUnsorted, "sorted with") {
+				return false, "", fmt.Sprintf("slice %s collected from a map is %s", obj.Name(), usedUnsorted)
+			}
 			return false, "", fmt.Sprintf("slice %s collected from a map is used before (or without) being sorted", obj.Name())
 		}
 	}
 	return true, "collect-then-sort", ""
+}
+
+// totalOrderSort: sort.Strings/Ints/Float64s, slices.Sort, or sort.Slice /
+// slices.SortFunc whose comparator is `xs[i] < xs[j]` / `a < b` /
+// strings.Compare(a, b) / cmp.Compare(a, b) on the raw elements.
+func totalOrderSort(info *types.Info, call *ast.CallExpr, cal *types.Func, xs types.Object) bool {
+	switch cal.Name() {
+	case "Strings", "Ints", "Float64s", "Sort":
+		if cal.Name() == "Sort" && cal.Pkg().Path() == "sort" {
+			return false // sort.Sort with a user Less: not decided
+		}
+		return true
+	case "Slice", "SliceStable", "SortFunc", "SortStableFunc":
+		if len(call.Args) != 2 {
+			return false
+		}
+		lit, ok := ast.Unparen(call.Args[1]).(*ast.FuncLit)
+		if !ok || len(lit.Body.List) != 1 {
+			return false
+		}
+		ret, ok := lit.Body.List[0].(*ast.ReturnStmt)
+		if !ok || len(ret.Results) != 1 {
+			return false
+		}
+		var params []types.Object
+		for _, f := range lit.Type.Params.List {
+			for _, n := range f.Names {
+				params = append(params, info.Defs[n])
+			}
+		}
+		isElem := func(e ast.Expr) bool {
+			switch x := ast.Unparen(e).(type) {
+			case *ast.IndexExpr: // xs[i]
+				id, ok := ast.Unparen(x.X).(*ast.Ident)
+				if !ok || info.ObjectOf(id) != xs {
+					return false
+				}
+				ix, ok := ast.Unparen(x.Index).(*ast.Ident)
+				if !ok {
+					return false
+				}
+				for _, p := range params {
+					if info.ObjectOf(ix) == p {
+						return true
+					}
+				}
+			case *ast.Ident: // a, b of SortFunc
+				for _, p := range params {
+					if info.ObjectOf(x) == p {
+						return true
+					}
+				}
+			}
+			return false
+		}
+		switch x := ast.Unparen(ret.Results[0]).(type) {
+		case *ast.BinaryExpr:
+			return (x.Op == token.LSS || x.Op == token.GTR) && isElem(x.X) && isElem(x.Y)
+		case *ast.CallExpr:
+			if c2 := Callee(info, x); c2 != nil && c2.Name() == "Compare" && len(x.Args) == 2 {
+				return isElem(x.Args[0]) && isElem(x.Args[1])
+			}
+		}
+		return false
+	}
+	return false
 }
 
 func checkC15(c *Ctx) {
@@ -255,6 +331,7 @@ func checkC15(c *Ctx) {
 	r.Rule("R15a", "every range over a Go map has an order-insensitive body", 2)
 	r.Rule("R15b", "no ambient source (clock, randomness, environment, fs, runtime, unordered iteration API), go/select/channel op in generator packages", 6)
 	r.Rule("R15c", "no cross-file mutable state: package variables, generator receiver fields, variables shared across the per-file loop; one OpenAPI generator per service", 8)
+	r.Rule("R15f", "reads of the run-wide unwrap table are keyed by a message of the current file or fall back to the descriptor itself (output of a file must not depend on which other files are generated)", 2)
 	r.Rule("R15e", "no address-valued argument (pointer, func, chan) is printed into generated output", 100)
 
 	// positive controls for the matcher (rules whose expected count is zero)
@@ -549,6 +626,9 @@ func checkC15(c *Ctx) {
 		r.Check(shared == "", "R15c", rel+": Generate's per-file loop writes no variable declared outside it", c.P.Pos(loop.Pos()),
 			"variable "+shared+" is declared outside the per-file loop and written inside it: cross-file state")
 	}
+	// (2b) R15f: the table collected from ALL files of the run (httpgen.GlobalUnwrapInfo)
+	c.checkGlobalTableReads()
+
 	// (3) OpenAPI: one fresh generator per service
 	if mainPk := c.P.Pkg("cmd/protoc-gen-openapiv3"); mainPk == nil {
 		r.Unres("R15c", "openapi main", "", "package cmd/protoc-gen-openapiv3 not found")
@@ -585,4 +665,136 @@ func checkC15(c *Ctx) {
 			"the OpenAPI generator object (which accumulates schemas) is not constructed per service: documents would depend on earlier services/files")
 		// and nobody else stores a Generator in a package variable (covered by package variable rule)
 	}
+}
+
+
+// checkGlobalTableReads — R15f. httpgen collects unwrap information from every
+// file generated in the invocation (GlobalUnwrapInfo.UnwrapFields). For the
+// output of one file not to depend on its companions, a lookup in that table
+// is allowed only (a) with a key derived from the element of a range over the
+// function's own []*protogen.Message parameter (a message of the current
+// file: always in the table), or (b) in the comma-ok form whose !ok arm
+// computes the same information from the descriptor (annotations.GetUnwrapField).
+func (c *Ctx) checkGlobalTableReads() {
+	r := c.R
+	pk := c.P.Pkg(pkgHTTP)
+	if pk == nil {
+		r.Unres("R15f", "httpgen", "", "package not loaded")
+		return
+	}
+	info := pk.TypesInfo
+	isTable := func(t types.Type) bool {
+		m, ok := t.Underlying().(*types.Map)
+		return ok && typeIsNamed(m.Elem(), "internal/annotations", "UnwrapFieldInfo")
+	}
+	getUnwrap := c.P.Func("internal/annotations", "GetUnwrapField")
+	n := 0
+	for fn, decl := range c.P.Decls {
+		if fn.Pkg() != pk.Types || decl.Body == nil {
+			continue
+		}
+		parents := parentMap(decl.Body)
+		// own-file message variables: range value variables over a []*protogen.Message parameter
+		own := map[types.Object]bool{}
+		sig := fn.Type().(*types.Signature)
+		msgParams := map[types.Object]bool{}
+		for i := 0; i < sig.Params().Len(); i++ {
+			if sl, ok := sig.Params().At(i).Type().(*types.Slice); ok && typeIsNamed(sl.Elem(), "compiler/protogen", "Message") {
+				msgParams[sig.Params().At(i)] = true
+			}
+		}
+		ast.Inspect(decl.Body, func(nd ast.Node) bool {
+			if rs, ok := nd.(*ast.RangeStmt); ok {
+				if id, ok := ast.Unparen(rs.X).(*ast.Ident); ok && msgParams[info.ObjectOf(id)] {
+					if v, ok := rs.Value.(*ast.Ident); ok {
+						own[info.ObjectOf(v)] = true
+					}
+				}
+			}
+			return true
+		})
+		ast.Inspect(decl.Body, func(nd ast.Node) bool {
+			ix, ok := nd.(*ast.IndexExpr)
+			if !ok {
+				return true
+			}
+			tv, ok := info.Types[ix.X]
+			if !ok || !isTable(tv.Type) {
+				return true
+			}
+			// writes (m[k] = v) are the collection itself
+			if as, ok := parents[ix].(*ast.AssignStmt); ok {
+				for _, l := range as.Lhs {
+					if l == ast.Expr(ix) {
+						return true
+					}
+				}
+			}
+			n++
+			key := fmt.Sprintf("%s reads unwrap table with key %s", FuncName(fn), types.ExprString(ix.Index))
+			// (a) key mentions an own-file message variable
+			ownKey := false
+			keyExpr := ix.Index
+			// resolve a local key variable to its single definition
+			if id, ok := ast.Unparen(keyExpr).(*ast.Ident); ok {
+				obj := info.ObjectOf(id)
+				ast.Inspect(decl.Body, func(m ast.Node) bool {
+					if as, ok := m.(*ast.AssignStmt); ok && len(as.Lhs) == 1 && len(as.Rhs) == 1 {
+						if l, ok := as.Lhs[0].(*ast.Ident); ok && info.ObjectOf(l) == obj {
+							keyExpr = as.Rhs[0]
+						}
+					}
+					return true
+				})
+			}
+			ast.Inspect(keyExpr, func(m ast.Node) bool {
+				if id, ok := m.(*ast.Ident); ok && own[info.ObjectOf(id)] {
+					ownKey = true
+				}
+				return true
+			})
+			if ownKey {
+				r.OKd("R15f", key, c.P.Pos(ix.Pos()), map[string]any{"why": "key is a message of the current file"})
+				return true
+			}
+			// (b) comma-ok with fallback
+			fallback := false
+			if as, ok := parents[ix].(*ast.AssignStmt); ok && len(as.Lhs) == 2 {
+				okObj := info.ObjectOf(as.Lhs[1].(*ast.Ident))
+				// find `if !ok { … GetUnwrapField(…) … }` following in the same block
+				var blockStmts []ast.Stmt
+				switch b := parents[as].(type) {
+				case *ast.BlockStmt:
+					blockStmts = b.List
+				case *ast.IfStmt:
+					if b.Init == ast.Stmt(as) {
+						blockStmts = []ast.Stmt{b}
+					}
+				}
+				for _, st := range blockStmts {
+					ifs, ok := st.(*ast.IfStmt)
+					if !ok || ifs.Pos() < as.Pos() {
+						continue
+					}
+					un, ok := ast.Unparen(ifs.Cond).(*ast.UnaryExpr)
+					if !ok || un.Op != token.NOT {
+						continue
+					}
+					if id, ok := ast.Unparen(un.X).(*ast.Ident); !ok || info.ObjectOf(id) != okObj {
+						continue
+					}
+					ast.Inspect(ifs.Body, func(m ast.Node) bool {
+						if call, ok := m.(*ast.CallExpr); ok && Callee(info, call) == getUnwrap && getUnwrap != nil {
+							fallback = true
+						}
+						return true
+					})
+				}
+			}
+			r.CheckD(fallback, "R15f", key, c.P.Pos(ix.Pos()),
+				"the run-wide unwrap table is consulted for a message that may live in another file, without falling back to the message's own annotation: the file's output changes with the set of files generated in the same invocation", nil)
+			return true
+		})
+	}
+	r.Count("unwrap_table_reads", n)
 }
